@@ -45,7 +45,10 @@ def code_for(me, ret, fresh=False):
         src = {(False, False): SRC, (True, False): SRC_ME, (False, True): SRC_RET, (True, True): SRC_ME_RET}[key[:2]]
         if fresh:
             # the function returns an object made after the line was reached (and after the temporaries that the
-            # watches of that line produced were dropped)
+            # watches of that line produced were dropped) - and after a local that was collected at the line has been
+            # emptied in place by the function itself (what it held is garbage before the function returns)
+            src = src.replace("    HIT()\n", "    t1 = [[a, 1], [b, 2], BIG + 7]\n    t2 = {'k': [a]}\n    HIT()\n"
+                                            "    t1.clear(); t2.clear()\n")
             src = src.replace("return DONE(d)", "return DONE(%s)" % {'list': '[a, b]', 'bigint': 'BIG + 3'}[fresh])
         _codes[key] = compile(src, PATH, 'exec')
     return _codes[key]
@@ -249,7 +252,8 @@ class C07(Prop):
                     cfg['stage'] = 'line_capture'      # deferred: completed (and the returned value captured) later
                 actions.append(LocationAction('tp%d' % i, None, cfg, LocationAction.ActionType.Snapshot))
                 n_snap += 1
-        trig = Trigger(LineLocation('c07_mod.py', HIT_LINE_ME if me else HIT_LINE, Location.Position.START), actions)
+        hit_line = (HIT_LINE_ME if me else HIT_LINE) + (2 if recipe.get('ret_fresh') else 0)
+        trig = Trigger(LineLocation('c07_mod.py', hit_line, Location.Position.START), actions)
         handler, _, push = lab.make_handler([trig], plugins=[lab.RecLogger()])
         if recipe.get('outermost') and not capture:
             return self.case_outermost(recipe, out, vals, i0, i1, actions, n_snap)
